@@ -81,9 +81,13 @@ struct Sched {
     switches_during_compile: u64,
     compiling: bool,
     last_runner: Option<usize>,
+    gen: u64,
 }
 
+static GEN: std::sync::atomic::AtomicU64 = std::sync::atomic::AtomicU64::new(1);
 static SCHED: Mutex<Option<Sched>> = Mutex::new(None);
+/// every thread that ever called `worker.recv` while no run was active, in order of appearance
+static WORKERS: Mutex<Vec<ThreadId>> = Mutex::new(Vec::new());
 static CV: Condvar = Condvar::new();
 
 impl Sched {
@@ -91,13 +95,7 @@ impl Sched {
         if let Some(i) = self.actors.iter().position(|a| a.thread == Some(tid)) {
             return Some(i);
         }
-        if point.starts_with("worker.") || point.starts_with("abort.") {
-            // the worker thread was spawned by ServerState::default before registration
-            if let Some(i) = self.actors.iter().position(|a| a.name == "worker" && a.thread.is_none()) {
-                self.actors[i].thread = Some(tid);
-                return Some(i);
-            }
-        }
+        let _ = point;
         None
     }
 
@@ -162,10 +160,13 @@ impl Sched {
 /// wait (with the lock held through the condvar) until `me` owns the token
 fn wait_for_token(mut g: std::sync::MutexGuard<'static, Option<Sched>>, me: usize) {
     let t0 = Instant::now();
+    let my_gen = g.as_ref().map(|s| s.gen).unwrap_or(0);
     loop {
         {
-            let s = g.as_mut().unwrap();
-            if !s.enabled {
+            // a thread left over from an earlier run (it was parked for ever there) must not
+            // take part in the current one
+            let Some(s) = g.as_mut() else { return };
+            if !s.enabled || s.gen != my_gen || me >= s.actors.len() {
                 return;
             }
             if s.token == Some(me) {
@@ -196,7 +197,17 @@ fn wait_for_token(mut g: std::sync::MutexGuard<'static, Option<Sched>>, me: usiz
 fn callback(kind: Kind, point: &'static str, detail: &str) -> Action {
     let tid = std::thread::current().id();
     let mut g = SCHED.lock().unwrap();
-    let Some(s) = g.as_mut() else { return Action::Continue };
+    let Some(s) = g.as_mut() else {
+        // between runs: remember which threads are compilation workers (the next run binds the
+        // worker that belongs to its own ServerState and ignores workers of finished runs)
+        if point == "worker.recv" {
+            let mut w = WORKERS.lock().unwrap();
+            if !w.contains(&tid) {
+                w.push(tid);
+            }
+        }
+        return Action::Continue;
+    };
     if !s.enabled {
         return Action::Continue;
     }
@@ -234,6 +245,19 @@ fn callback(kind: Kind, point: &'static str, detail: &str) -> Action {
                 }
                 CV.notify_all();
                 wait_for_token(g, me);
+                // the channel may have changed while this actor waited for its turn (e.g. the
+                // pending message was drained by a sender): decide again now that it runs
+                let mut g = SCHED.lock().unwrap();
+                if let Some(s) = g.as_mut() {
+                    if s.enabled && me < s.actors.len() && s.token == Some(me) && s.will_block(point) {
+                        s.actors[me].st = St::Blocked(point.to_string());
+                        s.token = None;
+                        if let Some(n) = s.pick() {
+                            s.token = Some(n);
+                        }
+                        CV.notify_all();
+                    }
+                }
             }
         }
         Kind::Resumed => {
@@ -253,8 +277,18 @@ fn callback(kind: Kind, point: &'static str, detail: &str) -> Action {
 fn register(name: &str) -> usize {
     let mut g = SCHED.lock().unwrap();
     let s = g.as_mut().unwrap();
-    s.actors.push(Actor { name: name.to_string(), thread: Some(std::thread::current().id()), st: St::AtPoint });
-    let me = s.actors.len() - 1;
+    // the entry was created (runnable, not yet bound to a thread) before the thread was spawned,
+    // so that quiescence cannot be declared while a client has not started yet
+    let me = match s.actors.iter().position(|a| a.name == name && a.thread.is_none()) {
+        Some(i) => {
+            s.actors[i].thread = Some(std::thread::current().id());
+            i
+        }
+        None => {
+            s.actors.push(Actor { name: name.to_string(), thread: Some(std::thread::current().id()), st: St::AtPoint });
+            s.actors.len() - 1
+        }
+    };
     s.log.push(Ev { actor: me, point: "client.start".into(), detail: name.to_string() });
     CV.notify_all();
     wait_for_token(g, me);
@@ -363,6 +397,7 @@ pub struct RunOut {
     pub log: Vec<(String, String, String)>,
     pub choices: Vec<usize>,
     pub quiescent: bool,
+    pub state_dump: String,
     pub diverged: Option<String>,
     pub parked: Vec<String>,
     pub probe_returned: Option<bool>,
@@ -398,14 +433,29 @@ fn wait_quiescence(limit: Duration) -> bool {
 
 pub fn controlled_run(dir: &std::path::Path, script: &Script, seed: u64, replay: Option<Vec<usize>>) -> RunOut {
     let project = make_project(dir);
+    let known_before = WORKERS.lock().unwrap().len();
     let state = Arc::new(ServerState::default());
-    // give the worker time to reach its first recv (hooks are ignored until the scheduler is enabled)
-    std::thread::sleep(Duration::from_millis(2));
+    // wait until this server's worker has announced itself at its first recv (no run is active,
+    // so the hook only records the thread)
+    let t_w = Instant::now();
+    let worker_tid = loop {
+        {
+            let w = WORKERS.lock().unwrap();
+            if w.len() > known_before {
+                break Some(w[w.len() - 1]);
+            }
+        }
+        if t_w.elapsed() > Duration::from_secs(5) {
+            break None;
+        }
+        std::thread::sleep(Duration::from_micros(200));
+    };
+    std::thread::sleep(Duration::from_millis(1));
     {
         let mut g = SCHED.lock().unwrap();
         *g = Some(Sched {
             enabled: true,
-            actors: vec![Actor { name: "worker".into(), thread: None, st: St::Blocked("worker.recv".into()) }],
+            actors: vec![Actor { name: "worker".into(), thread: worker_tid, st: St::Blocked("worker.recv".into()) }],
             token: None,
             log: vec![],
             occupancy: 0,
@@ -417,11 +467,13 @@ pub fn controlled_run(dir: &std::path::Path, script: &Script, seed: u64, replay:
             switches_during_compile: 0,
             compiling: false,
             last_runner: None,
+            gen: GEN.fetch_add(1, std::sync::atomic::Ordering::SeqCst),
         });
     }
     let version = Arc::new(Mutex::new(1));
     let mut handles = vec![];
     let mut spawn_actor = |name: String, steps: Vec<Step>| {
+        SCHED.lock().unwrap().as_mut().unwrap().actors.push(Actor { name: name.clone(), thread: None, st: St::AtPoint });
         let st = state.clone();
         let uri = project.uri.clone();
         let ver = version.clone();
@@ -442,6 +494,7 @@ pub fn controlled_run(dir: &std::path::Path, script: &Script, seed: u64, replay:
     // probe: a fresh waiter must return without anything else happening
     let mut probe_returned = None;
     if quiescent {
+        SCHED.lock().unwrap().as_mut().unwrap().actors.push(Actor { name: "probe".into(), thread: None, st: St::AtPoint });
         let st = state.clone();
         let h = std::thread::spawn(move || {
             let me = register("probe");
@@ -458,6 +511,11 @@ pub fn controlled_run(dir: &std::path::Path, script: &Script, seed: u64, replay:
         }
     }
     // collect and tear down
+    let state_dump = {
+        let g = SCHED.lock().unwrap();
+        let s = g.as_ref().unwrap();
+        format!("token={:?} waking={:?} occupancy={} actors={:?} last_events={:?}", s.token, s.waking, s.occupancy, s.actors.iter().map(|a| format!("{}:{:?}:{}", a.name, a.st, a.thread.is_some())).collect::<Vec<_>>(), s.log.iter().rev().take(6).map(|e| format!("{}:{}", e.actor, e.point)).collect::<Vec<_>>())
+    };
     let (log, choices, diverged, parked, switches) = {
         let mut g = SCHED.lock().unwrap();
         let s = g.as_mut().unwrap();
@@ -489,7 +547,7 @@ pub fn controlled_run(dir: &std::path::Path, script: &Script, seed: u64, replay:
     }
     let _ = state.shutdown_server();
     *SCHED.lock().unwrap() = None;
-    RunOut { log, choices, quiescent, diverged, parked, probe_returned, switches }
+    RunOut { log, choices, quiescent, state_dump, diverged, parked, probe_returned, switches }
 }
 
 // ------------------------------------------------------------------------------------------
@@ -634,7 +692,7 @@ fn absorb(ctx_dir: &std::path::Path, script: &Script, seed: u64, out: RunOut, re
     }
     if !out.quiescent {
         res.count("runs_without_quiescence");
-        res.inconclusive("the run did not reach a quiescent state within the watchdog");
+        res.inconclusive(format!("the run did not reach a quiescent state within the watchdog: {}", out.state_dump));
         return;
     }
     res.count("runs_reached_quiescence");
